@@ -58,11 +58,25 @@ def _direct_stmts(loop: ast.For):
 def r101(prog, chk):
     ix = prog.ix
     for f in (ix.get_method(f"{KERN1}.KernFeatureWriter", "getVariableKerningPairs"), ix.get_func(f"{KERN2}:get_variable_kerning_pairs")):
-        loops = _source_loops(prog, f)
-        need(len(loops) == 2, f"cannot interpret {f.short}: expected the pair-collection loop and the value loop over .sources, found {len(loops)}")
-        collect = [l for l in loops if any(isinstance(n, ast.AugAssign) and isinstance(n.op, ast.BitOr) for n in ast.walk(l))]
-        values = [l for l in loops if l not in collect]
-        need(len(collect) == 1 and len(values) == 1, f"cannot interpret {f.short}: source loops")
+        allfor = [n for n in A.body_nodes(f.node) if isinstance(n, ast.For)]
+        collect = [l for l in allfor if any(isinstance(n, ast.AugAssign) and isinstance(n.op, ast.BitOr) for n in l.body)]
+        values = [l for l in allfor if any(isinstance(n, ast.Assign) and "get_userspace_location" in T(n.value) for n in l.body)]
+        need(len(collect) == 1 and len(values) == 1, f"cannot interpret {f.short}: pair-collection loop and value loop")
+        bad_iter = []
+        for l in (collect[0], values[0]):
+            it = l.iter
+            okit = isinstance(it, ast.Attribute) and it.attr == "sources"
+            if not okit and isinstance(it, ast.Name):
+                ds = prog.reaching(f, it.id, it)
+                okit = len(ds) == 1 and isinstance(ds[0].value, ast.ListComp) and T(ds[0].value.generators[0].iter).endswith(".sources") \
+                    and all(T(c).endswith(".layerName is None") for c in ds[0].value.generators[0].ifs)
+            if not okit:
+                bad_iter.append(T(it))
+        chk.ob("R10.1", f"{f.short}|both loops run over all sources of the designspace", not bad_iter, where(f, values[0]), detail="for source in designspace.sources",
+               message=f"{f.short}: kerning values are only collected from a filtered list of sources ({bad_iter}): a full master left out of it gets interpolated kerning "
+                       f"at its own location instead of its own values (a master without any kerning must contribute zeros)")
+        if bad_iter:
+            continue
         cl, vl = collect[0], values[0]
         sv = A.target_names(vl.target)[0]
         # (a) union of all full sources' pairs
